@@ -42,6 +42,7 @@ def amount_of(sym, fpb):
         '1e': COIN + 1,             # 1 + epsilon
         '5': 5 * COIN,
         '10': 10 * COIN,
+        'u1': i + 60 * fpb,         # pays an empty transaction's fee and the price of a change output, leaves < DUST
     }[sym]
 
 
@@ -200,7 +201,8 @@ def gen_items(tier, seed):
                 items.append(('G7', {'syms': w, 'fpb': 50, 'strategies': QUICK_STRATEGIES if quick else ALL_STRATEGIES,
                                      'rich': False, 'used_change': used, 'choice': ch}))
     # G8: sweep (pre-chosen inputs, no requested output: the multi-round edge case of the balancing loop)
-    for w in [[], ['1'], ['neg'], ['dust'], ['one', 'one'], ['dust', 'dust1'], ['dust', 'dust1', 'cent'],
+    for w in [[], ['1'], ['neg'], ['dust'], ['u1'], ['u1', 'u1'], ['u1', 'u1', 'u1'], ['one', 'one'], ['dust', 'dust1'],
+              ['dust', 'dust1', 'cent'],
               ['neg', 'neg', 'neg', 'neg', 'neg', 'neg', '1']]:
         items.append(('G8', {'syms': w, 'fpb': 50, 'strategies': strategies if quick else ALL_STRATEGIES}))
     # G9: singles at the 250 limits
@@ -770,6 +772,10 @@ def judge(case, obs, res):
         leaked = reserved_after - reserved_before
         if any(obs['selected']):
             res.witness('failure_after_outputs_were_reserved')
+            if len(obs['selected']) >= 2:
+                res.witness('failure_in_round_2_or_later_after_reserving')
+                if strat == 'sqlite':
+                    res.witness('failure_in_round_2_or_later_after_reserving_sqlite')
         if leaked:
             viol({'kind': 'reserved-after-failure', 'outcome': obs['outcome'], 'strategy_is_sqlite': strat == 'sqlite'},
                  f'{len(leaked)} output(s) stay reserved after a failed build ({obs["outcome"]}, strategy {strat})')
@@ -886,6 +892,8 @@ def judge(case, obs, res):
             res.witness('accumulation_of_several_inputs')
     if obs['shuffles']:
         res.witness('random_draw_reached')
+    if case.get('history') and strat == 'only_confirmed' and any(st[0] == 'confirm' for st in case['history']) and added:
+        res.witness('history_confirmed_coin_used_by_only_confirmed')
     if obs['new_addresses']:
         res.witness('new_change_key_derived')
     if len(in_ids) >= 250:
@@ -1006,7 +1014,11 @@ def run(ctx):
               'short-by-1 and far-short; output shapes pay1, pay2, claim (name 1/30, name-char fee 0/200000), update, '
               'support, support+data, purchase, 250 outputs, 250 UTXOs, input-only sweep; pre-chosen reserved input worth '
               'cost-d for d in {5,9,10,11,50,99,100,0,-1,-DUST,..}; fee_per_byte 1/50/1000; decoys (reserved, spent, '
-              "other account's, claim, received purchase); used change addresses 0/1/2; when random_draw is reached every "
+              "other account's, claim, received purchase); used change addresses 0/1/2; multi-step histories on one ledger "
+              '(G10: a build that enumerates the wallet and is released / held / recorded as seen in the mempool, then a '
+              'transaction confirms / is reorganised / a coin is reserved, released, spent or arrives / the fee rate '
+              'changes, then the judged build with its target placed on the CURRENT table: largest / total / largest '
+              'confirmed / confirmed total / smallest); when random_draw is reached every '
               'shuffle permutation of <= 3 coins and permutations number 1, n/2, n-1 (lexicographic / rotations) beyond.  Non-trivial = the wallet holds at least one spendable coin; distinct = distinct '
               'tuples of all dimension values.'),
         exhaustive=True,
@@ -1026,7 +1038,8 @@ def run(ctx):
                      'a claim/support output used as funding input is tallied (the statement only says unspent/unreserved)'],
         expected_witnesses=['exact_match_no_change', 'inside_cost_of_change_window', 'single_input_with_change',
                             'accumulation_of_several_inputs', 'random_draw_reached', 'new_change_key_derived',
-                            '250_inputs', '250_outputs', 'failure_after_outputs_were_reserved', 'change_of_exactly_dust_plus_1', 'largest_surplus_without_change'],
+                            '250_inputs', '250_outputs', 'failure_after_outputs_were_reserved',
+                            'failure_in_round_2_or_later_after_reserving', 'history_confirmed_coin_used_by_only_confirmed', 'change_of_exactly_dust_plus_1', 'largest_surplus_without_change'],
     )
 
 
